@@ -9,6 +9,11 @@ R3  always closed: _handle_websocket closes after the responder, every
     closes on its ws branch, with the documented code mapping.
 R4  close-code validation (partition of the integer line by the folded
     comparisons of close()) and the spec-version gate of the close reason.
+    Auto-mutation wave: the TYPE partition of the argument {None, int, anything else} - the third cell (abstract value
+    NON_INT: isinstance(code, int) is false, ordering tests against numbers have no usable outcome and may raise TypeError)
+    is rejected with ValueError before anything is sent (sa-am01299); the reserved block ends at 1999, the extension range
+    2000-2999 of the reference close() documents is accepted at both ends (sa-am01349).  A test over a local computed
+    from the code (``reserved = 1015 <= code <= 1999``) is an unknown idiom.
 R5  payload types.
 R7  = C18 R6 (shared): ``_BufferedReceiver.receive()`` hands out the synthesised disconnect only when no message is
     buffered ("payloads arrive unchanged, in order" includes the ones that preceded a disconnect; seeded s5-c17-2).
